@@ -55,11 +55,31 @@ void harness(void) {
 void harness(void) {
 	const unsigned char *buf = nondet_ptr(); size_t buf_len = nondet_size(); KSI_FTLV *arr = nondet_ptr(); size_t arr_len = nondet_size();
 	size_t *rd = nondet_ptr(); int res;
+#ifdef FTLV_COUNT_MODE
+	arr = NULL;    /* count mode (arr_len != 0 is then an argument error); array mode is job C09.memReadN_tiling */
+#endif
 	res = KSI_FTLV_memReadN(buf, buf_len, arr, arr_len, rd);
 	if (res == KSI_OK) REACH("sequence accepted");
 	if (res == KSI_INVALID_FORMAT) REACH("sequence rejected");
 	if (res == KSI_INVALID_ARGUMENT) REACH("argument rejected");
 	if (res == KSI_OK && arr_len == 0) REACH("count mode accepted");
-	if (res == KSI_OK && arr_len > 3 && g_ftlv_k == 2) REACH("array mode accepted");
+#ifndef FTLV_COUNT_MODE
+	if (res == KSI_OK && arr_len > 2 && g_ftlv_k == 1) REACH("array mode accepted");
+#endif
+}
+#endif
+
+#ifdef H_readData
+void harness(void) {
+	int fdobj; size_t len = nondet_size(); size_t *consumed = nondet_ptr(); struct fast_tlv_s *t = nondet_ptr(); int res;
+	g_rd_fd = &fdobj; g_rd_buf = nondet_ptr(); g_rd_buf_len = len;
+	g_rd_calls = 0; g_rd_requested = 0; g_rd_total = 0; g_rd_closed = 0;
+	res = readData(&fdobj, g_rd_buf, len, consumed, t, tlvreader_stub);
+	if (res == KSI_OK) REACH("one element read");
+	if (res == KSI_OK && g_rd_total == 4) REACH("TLV16 with empty payload");
+	if (res == KSI_OK && g_rd_total == 2) REACH("TLV8 with empty payload");
+	if (res == KSI_BUFFER_OVERFLOW) REACH("buffer too small");
+	if (res == KSI_INVALID_FORMAT) REACH("short read");
+	if (res == KSI_IO_ERROR) REACH("reader error");
 }
 #endif
